@@ -20,3 +20,34 @@ pub assume_specification<T, F: FnOnce(T) -> bool> [Option::<T>::is_none_or] (o: 
     requires o.is_some() ==> f.requires((o.unwrap(),)),
     ensures o.is_none() ==> r, o.is_some() ==> f.ensures((o.unwrap(),), r);
 """
+
+# A1: documented semantics of the Option / Result combinators vstd does not specify. They make code that uses them acceptable to
+# Verus; a closure handed to them still has to be annotated (W-closure) for anything to be known about its result.
+STD_COMBINATORS = r"""
+pub assume_specification<T, U, F: FnOnce(T) -> U> [Option::<T>::map_or] (o: Option<T>, default: U, f: F) -> (r: U)     // A1
+    requires o.is_some() ==> f.requires((o.unwrap(),)),
+    ensures o.is_none() ==> r == default, o.is_some() ==> f.ensures((o.unwrap(),), r);
+pub assume_specification<T, F: FnOnce(T) -> bool> [Option::<T>::is_some_and] (o: Option<T>, f: F) -> (r: bool)       // A1
+    requires o.is_some() ==> f.requires((o.unwrap(),)),
+    ensures o.is_none() ==> !r, o.is_some() ==> f.ensures((o.unwrap(),), r);
+pub assume_specification<T, U> [Option::<T>::and] (a: Option<T>, b: Option<U>) -> (r: Option<U>)                     // A1
+    ensures r == (if a.is_some() { b } else { None::<U> });
+pub assume_specification<T> [Option::<T>::or] (a: Option<T>, b: Option<T>) -> (r: Option<T>)                         // A1
+    ensures r == (if a.is_some() { a } else { b });
+pub assume_specification<T, P: FnOnce(&T) -> bool> [Option::<T>::filter] (o: Option<T>, p: P) -> (r: Option<T>)      // A1
+    requires o matches Some(v) ==> p.requires((&v,)),
+    ensures o matches None ==> r == None::<T>,
+            o matches Some(v) ==> (p.ensures((&v,), true) ==> r == Some(v)) && (p.ensures((&v,), false) ==> r == None::<T>) && (r == Some(v) || r == None::<T>);
+pub assume_specification<T, E> [Option::<Result<T, E>>::transpose] (o: Option<Result<T, E>>) -> (r: Result<Option<T>, E>)   // A1
+    ensures o matches None ==> r == Ok::<Option<T>, E>(None),
+            o matches Some(Ok(v)) ==> r == Ok::<Option<T>, E>(Some(v)),
+            o matches Some(Err(e)) ==> r == Err::<Option<T>, E>(e);
+pub assume_specification<T, E> [Result::<T, E>::unwrap_or] (a: Result<T, E>, d: T) -> (r: T)                         // A1
+    ensures r == (match a { Ok(v) => v, Err(_) => d });
+pub assume_specification<T, E, U, F: FnOnce(T) -> Result<U, E>> [Result::<T, E>::and_then] (a: Result<T, E>, f: F) -> (r: Result<U, E>)   // A1
+    requires a matches Ok(v) ==> f.requires((v,)),
+    ensures a matches Ok(v) ==> f.ensures((v,), r), a matches Err(e) ==> r == Err::<U, E>(e);
+pub assume_specification<T, E, F: FnOnce(T) -> bool> [Result::<T, E>::is_ok_and] (a: Result<T, E>, f: F) -> (r: bool)   // A1
+    requires a matches Ok(v) ==> f.requires((v,)),
+    ensures a matches Ok(v) ==> f.ensures((v,), r), a.is_err() ==> !r;
+"""
